@@ -234,6 +234,10 @@ LSTerms ==
      App("gs", GS, <<P, K1s>>), App("gs", GS, <<Op("and", <<P, Qs>>), App("fs", FS, <<K2s, IntC(1)>>)>>),
      Op("array_select", <<AS, K1s>>), Op("and", <<Op("array_select", <<AS, K1s>>), P>>),
      Op("equals", <<PP, PP>>), Quant("forall", <<BVar("k1", TSs)>>, Op("equals", <<K1s, K2s>>)),
+     Op("equals", <<Sym("ap", TArray(TInt, TPair)), Sym("ap2", TArray(TInt, TPair))>>),
+     Op("equals", <<Op("array_select", <<Sym("ap", TArray(TInt, TPair)), Xx>>), PP>>),
+     App("gp", TFun(TBool, <<TPair, TArray(TSs, TPair)>>), <<PP, Sym("asp", TArray(TSs, TPair))>>),
+     Quant("exists", <<BVar("ap", TArray(TInt, TPair))>>, Op("equals", <<Op("array_select", <<Sym("ap", TArray(TInt, TPair)), IntC(0)>>), PP>>)),
      Quant("exists", <<BVar("pp", TPair), BVar("p", TBool)>>, Op("or", <<P, Op("equals", <<K1s, K2s>>)>>)),
      Op("equals", <<Op("array_select", <<Op("array_select", <<ANest, Xx>>), Yy>>), RealC(<<1, 2>>)>>),
      Op("equals", <<Op("ite", <<P, Xx, Yy>>), IntC(1)>>),
